@@ -1470,6 +1470,22 @@ func groupAnon() {
 		}
 		b.add("X", t, 2, req)
 	}
+	// a defined byte-slice type (json.RawMessage, net.IP, type Blob []byte) is a binary like []byte: as a field,
+	// a list element and above all a map value under every key kind (T2 took the string routine for it)
+	{
+		blob := func() *Ty { t := binary(); t.Named = "BlobT"; return t }
+		h = newStruct("anon")
+		h.add("F", blob(), 1, "default")
+		h.add("L", list(blob()), 2, "default")
+		h.add("M1", mapOf(prim("string"), blob()), 3, "default")
+		h.add("M2", mapOf(prim("int32"), blob()), 4, "default")
+		h.add("M3", mapOf(prim("int64"), blob()), 5, "optional")
+		h.add("M4", mapOf(prim("bool"), blob()), 6, "default")
+		h.add("M5", mapOf(named("int64", "E1"), blob()), 7, "default")
+		h.add("M6", mapOf(prim("int8"), blob()), 8, "default")
+		h.add("M7", mapOf(prim("int16"), blob()), 9, "default")
+		h.add("P", ptr(blob()), 10, "optional")
+	}
 	// identifiers with underscores (what thriftgo emits for foo_bar.thrift): qualifiers and type names
 	// (R4 made `_` a separator)
 	h = newStruct("anon")
@@ -1507,7 +1523,7 @@ func emit(outDir string) {
 	var g strings.Builder
 	g.WriteString("// Code generated by gentypes. DO NOT EDIT.\n\npackage universe\n\nimport (\n\t\"math\"\n\t\"reflect\"\n\t\"unsafe\"\n)\n\n")
 	g.WriteString("var _ = math.Pi\nvar _ unsafe.Pointer\n\n")
-	g.WriteString("type E1 int64\ntype E2 int64\ntype E3 int64\ntype NB uint8\ntype C1 int\ntype E_U int64\ntype AttrsT map[string]string\ntype IDsT []int64\n\n")
+	g.WriteString("type E1 int64\ntype E2 int64\ntype E3 int64\ntype NB uint8\ntype C1 int\ntype E_U int64\ntype AttrsT map[string]string\ntype IDsT []int64\ntype BlobT []byte\n\n")
 	var u strings.Builder
 	for _, s := range structs {
 		if s.Anonymous {
